@@ -13,6 +13,10 @@ B3 pre-exponential factors: A > 0; Reaction.get_A(use_q=False) = (kB T/h) exp(dS
    ChemkinReaction / SurfaceReaction: kB/h per unit temperature without TS (or without the
    entropy term) times sigma**(1 - n_surf), sigma chosen by sden_operation, in every unit
    system; ratio test between two site densities.
+B1f the number actually handed to OpenMKM files: SurfaceReaction.to_cti (text) and to_omkm_yaml (dict) with Ea=None
+   write Ea = max(0, barrier through the TS, reaction change) (G for ordinary steps; H or G by ads_act_method for
+   adsorption steps), in the unit the entry carries; TS ordinary / parent BEP / OpenMKM BEP / none, incl. endothermic
+   steps with a flat, low BEP (reaction change above the BEP barrier).
 INV online invariant at PY_RETURN of the clamped getters: the value handed out is >= 0.
 B1u/B2u/B3u  the same dimensional values against SI-derived constants (vf.ref.units) at a coarse
    tolerance: catches a wrong unit family without depending on pMuTT's own tables (C12's subject).
@@ -38,7 +42,7 @@ NT_RULE = ('three case kinds drawn per case index after a directed list: (clamp)
            '40 % of the site cases use surface names related to the bulk species name.  '
            'non-trivial = a clamp is active (max picks 0 or delta), or a reverse-direction value was decided, or '
            'n_surf != 1; distinct = distinct canonical JSON')
-REQUIRED_ORACLES = ['B1', 'B2', 'B3', 'B1u', 'B2u', 'B3u', 'INV']
+REQUIRED_ORACLES = ['B1', 'B2', 'B3', 'B1u', 'B2u', 'B3u', 'INV', 'B1f']
 _WIN = ['win:%s:%s:%s' % (q, d, w) for q in 'HG' for d in ('fwd', 'rev') for w in ('zero', 'barrier', 'delta')]
 DESCRIPTORS = ['delta_H', 'rev_delta_H', 'reactants_H', 'products_H',
                'delta_E', 'rev_delta_E', 'reactants_E', 'products_E']
@@ -77,14 +81,28 @@ REQUIRED_CLASSES = (['B1:ChemkinReaction', 'B1:SurfaceReaction', 'B1:ts', 'B1:no
                     ['A:%s:beta=%s:%s' % (c, b, t) for c in ('ChemkinReaction', 'SurfaceReaction')
                      for b in ('default', 0, 0.5, 1, 2) for t in ('ts', 'no_ts')] +
                     ['A:%s:is_adsorption=%s' % (c, a) for c in ('ChemkinReaction', 'SurfaceReaction')
-                     for a in (False, True)])
+                     for a in (False, True)] +
+                    ['eaf:ts=ts', 'eaf:ts=none', 'eaf:ts=bep:BEP', 'eaf:ts=bep:omkm.BEP'] +
+                    ['eaf:ts=%s:winner=%s' % (t, w) for t in ('ts', 'bep:BEP', 'bep:omkm.BEP')
+                     for w in ('zero', 'barrier', 'delta')] +
+                    ['eaf:ts=none:winner=zero', 'eaf:ts=none:winner=delta', 'eaf:writer=to_cti',
+                     'eaf:writer=to_omkm_yaml', 'eaf:units=str', 'eaf:units=Units', 'eaf:adsorption:get_H_act',
+                     'eaf:adsorption:get_G_act', 'eaf:non_adsorption'])
 REQUIRED_PROBES = ['ChemkinReaction.get_HoRT_act', 'ChemkinReaction.get_H_act', 'ChemkinReaction.get_GoRT_act',
                    'ChemkinReaction.get_G_act', 'SurfaceReaction.get_HoRT_act', 'SurfaceReaction.get_H_act',
                    'SurfaceReaction.get_GoRT_act', 'SurfaceReaction.get_G_act', 'BEP._get_descriptor_val',
                    'BEP._get_adjusted_slope', 'BEP.get_E_act', 'BEP.get_UoRT', 'BEP.get_HoRT', 'Reaction.get_A',
                    'ChemkinReaction.get_A', 'SurfaceReaction.get_A', 'ChemkinReaction._get_n_surf',
-                   'SurfaceReaction._get_n_surf']
+                   'SurfaceReaction._get_n_surf', 'SurfaceReaction.to_cti', 'SurfaceReaction.to_omkm_yaml']
 ASSUMPTIONS = [
+    'B1f: the activation energy of a SurfaceReaction entry (Ea=None, A=None) is read back from the to_cti text (third '
+    'number of the [A, b, Ea] / stick(s, b, Ea) group, written with 6 significant digits: tolerance 5e-4 relative) and '
+    'from the to_omkm_yaml dict (rate-constant / sticking-coefficient -> Ea; a float in act_energy_unit, or the string '
+    '"<value> <unit>" when a Units object is given: the unit the entry carries is the one used to convert it).  It is '
+    'compared with max(0, barrier, change) rebuilt from the species at the global T, P handed to the writer (G for '
+    'ordinary steps; H or G for adsorption steps according to ads_act_method).  One reactant (coefficient >= 1, not a '
+    'gas if possible) is put on an InteractingInterface so that the pre-exponential of the same entry can be written; '
+    'adsorption steps without a gas reactant are only read through to_cti (to_omkm_yaml refuses them)',
     'ChemkinReaction / SurfaceReaction are built from empirical species (they need a phase); BEP cases with an '
     'electronic-energy descriptor use StatMech species (only they have get_EoRT)',
     'dimensional values are compared with dimensionless * pmutt.constants.R(units) * T at 1e-9 (the unit tables are '
@@ -291,6 +309,10 @@ def _gen_bep(rng, descriptor=None, rcls=None, bep_cls=None, slope=None, shared=N
                    'intercept': rng.choice([0.0, 60.0, round(rng.uniform(0, 60), 3), round(rng.uniform(0, 60), 3)]),
                    'descriptor': descriptor,
                    'direction': rng.choice(['cleavage', 'synthesis', None]) if bep_cls == 'omkm.BEP' else None}
+    if rng.random() < 0.2:
+        # flat, low relation: on an endothermic step the reaction change exceeds the BEP barrier
+        spec['bep']['slope'] = rng.choice([0.0, round(rng.uniform(0, 0.2), 3)])
+        spec['bep']['intercept'] = rng.choice([0.0, round(rng.uniform(0, 8), 3)])
     spec['ts'] = [[spec['bep']['name'], 1.0]]
     spec['units'] = rng.sample(ACT_UNITS, 2)
     spec['bep_units'] = rng.sample(BEP_UNITS, 2)
@@ -510,6 +532,20 @@ def directed(tier):
                 c2['extra'] = {'direction': rd} if rd else {}
                 c2['rxn_direction_explicit'] = True
                 D.append(c2)
+    # --- B1f: Ea handed to OpenMKM files through a BEP transition state: endothermic with a flat, low relation
+    #     (reaction change wins), ordinary (barrier wins), strongly exothermic with slope 1 (zero wins)
+    for bep_cls in ('omkm.BEP', 'BEP'):
+        for rd in ('cleavage', None):
+            for a6B, slope, icpt in ((-5000.0, 0.1, 5.0), (-21000.0, 0.5, 20.0), (-60000.0, 1.0, 5.0)):
+                D.append({'kind': 'bep', 'cls': 'SurfaceReaction', 'flavor': 'directed',
+                          'species': {'A(S)': _nasa('A(S)', 'S', 3.0, -20000.0, 2.0),
+                                      'B(S)': _nasa('B(S)', 'S', 3.0, a6B, 2.5)},
+                          'reactants': [['A(S)', 1.0]], 'products': [['B(S)', 1.0]], 'ts': [['bep1', 1.0]],
+                          'extra': {'direction': rd, 'id': 'r1'} if rd else {}, 'rxn_direction_explicit': True,
+                          'cond': {'T': 500.0}, 'steer': None,
+                          'bep': {'name': 'bep1', 'cls': bep_cls, 'slope': slope, 'intercept': icpt,
+                                  'descriptor': 'delta_H', 'direction': rd if bep_cls == 'omkm.BEP' else None},
+                          'units': ['cal/mol', 'eV'], 'bep_units': ['kcal/mol', 'eV/molecule']})
     # --- B2: one BEP object shared by a family of reactions, both evaluation orders
     sib = {'species': {'CH3(S)': _nasa('CH3(S)', 'S', 4.0, -9000.0, 6.0), 'H(S)': _nasa('H(S)', 'S', 1.5, -4000.0, 1.0),
                        'CH4': _nasa('CH4', 'G', 4.5, -2000.0, 22.0)},
@@ -659,6 +695,8 @@ def install_probes(pr, ctx):
             pr.watch((lambda g=get, m=m: getattr(g(), m)), '%s.%s' % (nm, m), on_ret=_nonneg_ret)
         pr.watch((lambda g=get: g().get_A), '%s.get_A' % nm)
         pr.watch((lambda g=get: g()._get_n_surf), '%s._get_n_surf' % nm, on_ret=_nsurf_ret)
+    pr.watch(lambda: sr().to_cti, 'SurfaceReaction.to_cti')
+    pr.watch(lambda: sr().to_omkm_yaml, 'SurfaceReaction.to_omkm_yaml')
     pr.watch(lambda: rx().get_A, 'Reaction.get_A')
     pr.watch(lambda: rx().get_EoRT_act, 'Reaction.get_EoRT_act')
     pr.watch(lambda: rx().get_E_act, 'Reaction.get_E_act')
@@ -806,6 +844,8 @@ def _run_clamp(spec, ctx, rxn, objs):
                     ctx.cls('high_barrier')
         _check_clamp(ctx, rxn, spec, q, cands, max(mag.values()), cond, spec['units'], has_ts)
         if q != 'H':
+            if cls == 'SurfaceReaction':
+                _ea_files(ctx, rxn, objs, spec, 'ts' if has_ts else 'none')
             continue
         if (spec.get('extra') or {}).get('is_adsorption'):
             if has_ts:
@@ -830,6 +870,154 @@ def _run_clamp(spec, ctx, rxn, objs):
                     g = ctx.call('B1', md, rxn.get_E_act, units=u, rev=rev, del_m=1, **cond)
                     if g is not core.NOVALUE:
                         ctx.close('B1', _f(g) / (_R(u) * T), want, TOL, md, scale=sc, units=u)
+
+
+# =========================================================================== B1f: Ea handed to OpenMKM files
+TOL_TXT = 5e-4          # to_cti writes 6 significant digits (relative rounding 5e-6)
+
+
+def _cti_Ea(text):
+    """Third number of the rate group of a surface_reaction(...) entry: [A, b, Ea] or stick(s, b, Ea)."""
+    import re
+    q = text.index('"')
+    rest = text[text.index('",', q + 1) + 2:]             # after the quoted equation (names hold brackets)
+    m = re.search(r'(\[|stick\()([^\]\)]*)[\]\)]', rest)
+    parts = [p.strip() for p in m.group(2).split(',')]
+    if len(parts) != 3:
+        raise ValueError('rate group with %d entries' % len(parts))
+    return float(parts[2])
+
+
+def _yaml_Ea(d, default_unit):
+    """(value, unit) of the Ea entry of the rate block of a to_omkm_yaml dict."""
+    blk = d['sticking-coefficient'] if 'sticking-coefficient' in d else d['rate-constant']
+    v = blk['Ea']
+    if isinstance(v, str):
+        t = v.strip().strip('"').split(None, 1)
+        return float(t[0]), t[1].strip()
+    return float(v), default_unit
+
+
+def _ea_files(ctx, rxn, objs, spec, ts_kind):
+    """SurfaceReaction.to_cti / to_omkm_yaml (Ea and A not preset): the Ea of the entry is the clamp."""
+    from pmutt.omkm.units import Units
+    ex = spec.get('extra') or {}
+    if ex.get('Ea') is not None or ex.get('A') is not None:
+        return
+    cond = {k: v for k, v in spec['cond'].items() if not k.endswith('_kwargs')}
+    cond.setdefault('P', 1.0)
+    T = cond['T']
+    ads = bool(ex.get('is_adsorption'))
+
+    def skip(why):
+        ctx.extra['B1f_skipped:' + why] = ctx.extra.get('B1f_skipped:' + why, 0) + 1
+    # a catalyst site for the pre-exponential of the same entry
+    # species models without a phase attribute (StatMech) are adsorbates of the interface
+    nophase = []
+    for n, _ in spec['reactants']:
+        if not hasattr(objs[n], 'phase') and objs[n] not in nophase:
+            nophase.append(objs[n])
+    if nophase:
+        from pmutt.omkm.phase import InteractingInterface
+        try:
+            InteractingInterface(name='terrace0', species=nophase, site_density=2.5e-9)
+        except Exception:
+            return skip('site_not_attachable')
+    reac = [(n, nu) for n, nu in spec['reactants'] if nu >= 1]
+    if not any(hasattr(getattr(objs[n], 'phase', None), 'site_density') for n, _ in reac):
+        cand = [n for n, _ in reac if spec['species'][n].get('phase') != 'G']
+        if not cand and not ads:
+            cand = [n for n, _ in reac]
+        if not cand:
+            return skip('no_site_reactant')
+        from pmutt.omkm.phase import InteractingInterface
+        try:
+            InteractingInterface(name='terrace', species=[objs[cand[0]]], site_density=2.5e-9)
+        except Exception:
+            return skip('site_not_attachable')
+    gas_ok = any(isinstance(getattr(objs[n], 'phase', None), str) and objs[n].phase.lower() in ('g', 'gas')
+                 for n, _ in spec['reactants'])
+    # reference candidates (forward direction) at the writer's T, P
+    rp = ('reactants', 'products')
+    sides = rp + (('ts',) if ts_kind == 'ts' else ())
+    H, magH = _states(ctx, 'B1f', objs, spec, 'get_HoRT', cond, sides)
+    G, magG = _states(ctx, 'B1f', objs, spec, 'get_GoRT', cond, sides)
+    if H is None or G is None:
+        return
+    dH, dG = H['products'] - H['reactants'], G['products'] - G['reactants']
+    if ts_kind == 'none':
+        bH, bG = dH, dG
+    elif ts_kind == 'ts':
+        bH, bG = H['ts'] - H['reactants'], G['ts'] - G['reactants']
+    else:
+        from pmutt import constants as c
+        b = spec['bep']
+        d = b['descriptor']
+        if d.endswith('_E'):
+            Q, _ = _states(ctx, 'B1f', objs, spec, 'get_EoRT', cond, rp)
+            if Q is None:
+                return
+        else:
+            Q = H
+        Sx, _ = _states(ctx, 'B1f', objs, spec, 'get_SoR', cond, ('reactants',))
+        if Sx is None:
+            return
+        RTk = c.R('kcal/mol/K') * T
+        dQ = Q['products'] - Q['reactants']
+        dval = {'delta': dQ, 'rev_delta': -dQ, 'reactants': Q['reactants'], 'products': Q['products']}[d[:-2]]
+        bH = _adj_slope(b, False) * dval + b['intercept'] / RTk
+        bG = (H['reactants'] + bH - Sx['reactants']) - G['reactants']      # documented default entropy_state
+    cand = {'H': {'zero': 0.0, 'barrier': bH, 'delta': dH}, 'G': {'zero': 0.0, 'barrier': bG, 'delta': dG}}
+    mag = max(1.0, max(magH.values()), max(magG.values()))
+    ctx.cls('eaf:ts=' + ts_kind, 'eaf:adsorption' if ads else 'eaf:non_adsorption')
+    u = spec['units'][0]
+    for meth in (('get_H_act', 'get_G_act') if ads else (None,)):
+        q = meth[4] if ads else 'G'
+        c_ = cand[q]
+        want = max(c_.values())
+        win = _winner(c_)
+        if ads:
+            ctx.cls('eaf:adsorption:' + meth)
+        else:
+            ctx.cls('eaf:ts=%s:winner=%s' % (ts_kind, win))
+        for ulabel in ('str', 'Units'):
+            kw = dict(T=T, P=cond['P'])
+            if ulabel == 'str':
+                kw['act_energy_unit'] = u
+            else:
+                kw['units'] = Units(act_energy=u)
+            if ads:
+                kw['ads_act_method'] = meth
+            base = {'clause': 'B1', 'cls': 'SurfaceReaction', 'form': 'omkm_file', 'q': q, 'ts': ts_kind,
+                    'winner': win, 'is_adsorption': ads, 'units_arg': ulabel}
+            # ---- CTI text
+            m = dict(base, writer='to_cti')
+            txt = ctx.call('B1f', m, rxn.to_cti, **kw)
+            if txt is not core.NOVALUE:
+                try:
+                    got = _cti_Ea(txt)
+                except Exception as e:
+                    ctx.inconc('B1f', 'CTI entry not understood', exc=repr(e)[:100], text=str(txt)[:300])
+                else:
+                    ctx.cls('eaf:writer=to_cti', 'eaf:units=' + ulabel)
+                    ctx.close('B1f', got / (_R(u) * T), want, TOL_TXT, m, units=u, candidates=c_, got_dim=got)
+                    ctx.nontrivial(win != 'barrier')
+            # ---- YAML dict
+            if ads and not gas_ok:
+                skip('yaml_adsorption_without_gas_reactant')
+                continue
+            m = dict(base, writer='to_omkm_yaml')
+            dct = ctx.call('B1f', m, rxn.to_omkm_yaml, **kw)
+            if dct is core.NOVALUE:
+                continue
+            try:
+                got, gu = _yaml_Ea(dct, u)
+                Ru = _R(gu)
+            except Exception as e:
+                ctx.inconc('B1f', 'YAML entry not understood', exc=repr(e)[:100], entry=repr(dct)[:300])
+                continue
+            ctx.cls('eaf:writer=to_omkm_yaml', 'eaf:units=' + ulabel)
+            ctx.close('B1f', got / (Ru * T), want, TOL, m, scale=mag, units=gu, candidates=c_, got_dim=got)
 
 
 # =========================================================================== B2
@@ -1004,6 +1192,9 @@ def _run_bep(spec, ctx, rxn, objs):
                 g = ctx.call('B2', mm, rxn.get_GoRT_act, rev=rev, **kw)
                 if g is not core.NOVALUE:
                     ctx.close('B2', _f(g), cg[rev]['barrier'], TOL, mm, scale=scg)
+    # 7. the activation energy written to the OpenMKM files
+    if cls == 'SurfaceReaction':
+        _ea_files(ctx, rxn, objs, spec, 'bep:' + b['cls'])
 
 
 # =========================================================================== B3
